@@ -4,7 +4,7 @@
    gp t c i p = the correction of product p for input i that data channel c receives at dump t
    (through p's channel map);  factor = what calc_correction_per_corrprod computes for one corrprod. *)
 From Coq Require Import ZArith QArith Qabs Qcanon List Bool String Permutation.
-From KV Require Import Base.Sx Gen.Generated Model.Applycal Proofs.ApplycalP Model.ApplycalSol Proofs.ApplycalSolP Proofs.ApplycalElemP Proofs.ApplycalHoldP.
+From KV Require Import Base.Sx Gen.Generated Model.Applycal Proofs.ApplycalP Model.ApplycalSol Proofs.ApplycalSolP Proofs.ApplycalElemP Proofs.ApplycalHoldP Model.ApplycalName Proofs.ApplycalNameP Model.ApplycalRound Proofs.ApplycalRoundP.
 Import ListNotations.
 
 (* The flag raised by apply_flags_correction (constant name regenerated from applycal.py, value from flags.py). *)
@@ -336,3 +336,86 @@ Theorem C13_hold_independent_of_loaded_dumps : forall (A : Type) (a b T t : Z),
   in_force (seen a b evs) t = in_force (seen 0 T evs) (a + t)%Z.
 Proof. exact @hold_independent_of_loaded_dumps. Qed.
 Print Assumptions C13_hold_independent_of_loaded_dumps.
+
+(* ================================================================== the dask name of the corrections array
+   dask identifies a task by (array name, block index); arrays with one name computed in one graph are one array.
+   corr_name tok final = the name calc_correction gives the corrections array of one call (format string, separator,
+   `sorted` and the per-call token regenerated from the source); tok = uuid4().hex of the call (32 characters). *)
+
+(* Equal names (tokens of one length) => the same call token and the same set of applied products: two views with
+   different applycal, or two data sets, never share a corrections name.  Names are free of the separator. *)
+Theorem C13_name_identifies_call_and_products : forall t1 t2 a b,
+  List.length t1 = List.length t2 -> a <> [] -> b <> [] -> sep_free a -> sep_free b ->
+  corr_name t1 a = corr_name t2 b -> t1 = t2 /\ Permutation a b.
+Proof. exact corr_name_inj. Qed.
+Print Assumptions C13_name_identifies_call_and_products.
+
+(* Over a history of calc_correction calls (one per data set opened with applycal; pairwise different tokens of one
+   length, some product applied): all corrections arrays have different names - whatever products, data sets,
+   preselections they belong to.  False for the unrepaired code (name = products only: finding C13-F5). *)
+Theorem C13_names_unique_per_call : forall calls n,
+  NoDup (map fst calls) -> Forall (fun c => List.length (fst c) = n /\ snd c <> []) calls ->
+  NoDup (names_of calls).
+Proof. exact names_unique. Qed.
+Print Assumptions C13_names_unique_per_call.
+
+(* what must NOT matter: the order in which the products were requested *)
+Theorem C13_name_order_irrelevant : forall t a b, Permutation a b -> corr_name t a = corr_name t b.
+Proof. exact corr_name_perm. Qed.
+Print Assumptions C13_name_order_irrelevant.
+
+(* no product selected <=> no corrections array (the data set serves the stored arrays) *)
+Theorem C13_no_products_no_corrections : forall t final, calc_name t final = None <-> final = [].
+Proof. exact calc_name_none. Qed.
+Print Assumptions C13_no_products_no_corrections.
+
+(* chunks of the corrections array: time and channel chunks of the data; ONE chunk spanning the baseline axis
+   whenever the data has more than one (regenerated limit), same extent *)
+Theorem C13_corrections_chunks : forall tch cch bch,
+  fst (fst (corr_chunks tch cch bch)) = tch /\ snd (fst (corr_chunks tch cch bch)) = cch /\
+  sum_nat (snd (corr_chunks tch cch bch)) = sum_nat bch /\
+  (List.length (snd (corr_chunks tch cch bch)) <= 1)%nat.
+Proof. exact corr_chunks_all. Qed.
+Print Assumptions C13_corrections_chunks.
+
+(* ================================================================== restored to within rounding
+   "data corrupted by known per-input gains, delays and bandpasses are restored to within single-precision rounding":
+   the exact part is C13_inverts; the rounding is a STATED bound in the standard model of floating-point error
+   analysis (every rounded operation returns exact * (1 + e), |e| <= eps; katdal only multiplies, conjugates and
+   takes reciprocals between the solutions and the corrected visibility, so the errors multiply through). *)
+
+(* n rounding steps of relative error at most eps:  prod (1 + e_k) = 1 + E  with  |E|^2 <= ((1 + eps)^n - 1)^2 *)
+Theorem C13_rounding_accumulates : forall eps es, (0 <= eps)%Qc -> Forall (small eps) es ->
+  exists a b, perturb es = CFin (1 + a) b /\
+              (norm2 a b <= rbound eps (List.length es) * rbound eps (List.length es))%Qc.
+Proof. exact perturb_bound. Qed.
+Print Assumptions C13_rounding_accumulates.
+
+(* clean = x + iy stored as clean * G(i1) * conj G(i2) (finite non-zero gains), corrections 1/G_p, rounding steps
+   e1 on the stored value, e2 on the correction factor, e3 on the final product, each of magnitude <= eps:
+   the corrected visibility is clean + d with |d|^2 <= ((1 + eps)^n - 1)^2 * |clean|^2 (n = number of steps);
+   for n = 0 this is exact restoration. *)
+Theorem C13_restored_within_rounding :
+  forall (prods : list product) (G : product -> nat -> C) t c cp x y e1 e2 e3 eps,
+  (forall p i, In p prods -> fin_nz (G p i)) ->
+  (forall p i, In p prods -> gp t c i p = Cinv (G p i)) ->
+  (0 <= eps)%Qc -> Forall (small eps) (e1 ++ e2 ++ e3) ->
+  let A := Cmul (Cprod (map (fun p => G p (fst cp)) prods)) (Cconj (Cprod (map (fun p => G p (snd cp)) prods))) in
+  let n := List.length (e1 ++ e2 ++ e3) in
+  exists a b,
+    Cmul (apply_vis (Cmul (Cmul (CFin x y) A) (perturb e1)) (Cmul (factor prods t c cp) (perturb e2))) (perturb e3)
+    = CFin (x + a) (y + b)
+    /\ (norm2 a b <= (rbound eps n * rbound eps n) * norm2 x y)%Qc.
+Proof. exact restored_within_rounding. Qed.
+Print Assumptions C13_restored_within_rounding.
+
+(* Chunking on the baseline axis of the stored arrays: the corrections have ONE baseline chunk (C13_corrections_chunks)
+   and dask's elemwise cuts them at the data's chunk boundaries; for ANY decomposition bch of the baseline axis the
+   kernel applied piece by piece to one (dump, channel) row and concatenated is the kernel applied to the whole row -
+   together with C13_corrected_pointwise (any decomposition of time x channel): independence of the chunking on all
+   three axes. *)
+Theorem C13_baseline_chunking_irrelevant : forall (A : Type) (kernel : A -> C -> A) bch d f,
+  List.length d = sum_nat bch -> List.length f = sum_nat bch ->
+  row_by_chunks kernel bch d f = map2 kernel d f.
+Proof. exact @row_by_chunks_whole. Qed.
+Print Assumptions C13_baseline_chunking_irrelevant.
